@@ -77,6 +77,8 @@ def evalB (e : Env) : EB → Bool
   | .eqLower n l => decide (lowerAscii ((e.val n).getD []) = l.toList)
   | .startsWith n l => startsWith ((e.val n).getD []) l.toList
   | .isXmlTag n => Rows.isXmlTag ((e.val n).getD [])
+  | .eqLit n l => decide ((e.val n).getD [] = l.toList)
+  | .endsWith n l => endsWith ((e.val n).getD []) l.toList
 
 /-- f-string evaluation; `.sub n` is `survey.insert_xpaths(n, context=self)` (which applies `str()` first) -/
 def evalP (e : Env) (sub : Str → Str) : List EP → Str
@@ -369,6 +371,10 @@ def nsExtra (namespaces : Option Str) (features : Bool) : List (Str × Str) :=
 
 def entitiesPrefix : Str := "entities".toList
 
+/-- what the settings `namespaces` cell alone declares for the prefix `entities` (last declaration wins) -/
+def userEntitiesNs (namespaces : Option Str) : Option (Str × Str) :=
+  (lookup entitiesPrefix (nsExtra namespaces false)).map fun u => (entitiesPrefix, u)
+
 def entityName : Str := ((Gen.entityDeclTop.lookup "name").getD "").toList
 
 /-- `workbook_to_json` + `Survey.xml`: entities sheet first, then the survey rows (rows numbered from 2),
@@ -381,7 +387,7 @@ def convert (root : Str) (sub : Str → Str) (namespaces : Option Str) (entities
     (match walk false root 2 [] survey with
      | .error e => .error e
      | .ok sv => .ok { entity := none, nodes := [], saveto := sv, version := none
-                       xmlns := (lookup entitiesPrefix (nsExtra namespaces false)).map fun u => (entitiesPrefix, u) })
+                       xmlns := userEntitiesNs namespaces })
   | row :: rest =>
     match getEntityDeclaration row rest with
     | .error e => .error e
